@@ -5,7 +5,7 @@
 E2P_REPO=/tmp/wt_orig /venv/bin/python /verif/check.py --property $1 --tier quick | tail -3
 python3 - "$1" <<'PY'
 import json,collections,sys
-d=json.load(open('/verif/replays/%s-quick-seed0.json'%sys.argv[1]))
+d=json.load(open('/tmp/e2p_alt/replays/%s-quick-seed0.json'%sys.argv[1]))
 fi=d.get('failing_inputs',[])
 print('total',d.get('total'), 'no_failing_input', d.get('no_failing_input_found'))
 c=collections.Counter((x.get('why','')[:50],x.get('stream'),x.get('fn')) for x in fi); print(c)
